@@ -140,6 +140,9 @@ func RunCheck(p *Property, tier string) int {
 	}
 	budget = envInt("VERIF_DEADLINE_S", budget)
 	hang := envInt("VERIF_HANG_S", 60)
+	if p.HangS > 0 {
+		hang = envInt("VERIF_HANG_S", p.HangS)
+	}
 	seed := envInt("VERIF_SEED", 0)
 	tmp, err := os.MkdirTemp("", "verif-"+p.ID+"-")
 	if err != nil {
@@ -463,7 +466,7 @@ func Replay(props map[string]*Property, path string) int {
 	}()
 	select {
 	case <-done:
-	case <-time.After(time.Duration(envInt("VERIF_HANG_S", 60)) * time.Second):
+	case <-time.After(time.Duration(envInt("VERIF_HANG_S", hangDefault(p))) * time.Second):
 		if rf.Class == "hang" {
 			fmt.Println("REPRODUCED hang", rf.Case)
 			return 1
@@ -479,4 +482,11 @@ func Replay(props map[string]*Property, path string) int {
 	}
 	fmt.Printf("not reproduced (property=%s class=%s case=%s); observed %d other violations\n", rf.Property, rf.Class, rf.Case, len(r.Violations))
 	return 0
+}
+
+func hangDefault(p *Property) int {
+	if p.HangS > 0 {
+		return p.HangS
+	}
+	return 60
 }
